@@ -12,7 +12,9 @@ use serde::{Deserialize, Serialize};
 use serde_json::{json, Value};
 use std::sync::Arc;
 
-const RPS: [&str; 3] = ["a.example", "b.example", "c.example"];
+/// RPs 0..2 as before; 3 and 4 differ from RP 0 only by case / a trailing dot: as RP IDs (opaque
+/// strings whose SHA-256 is signed) they are different relying parties without credentials
+const RPS: [&str; 5] = ["a.example", "b.example", "c.example", "A.Example", "a.example."];
 /// universe: cred 0,1 -> RP a; cred 2,3 -> RP b; user handles equal across RPs (0 and 2, 1 and 3)
 fn universe() -> Vec<Passkey> {
     (0..4u8).map(|i| seeded(&Seed { n: i + 1, rp: RPS[(i / 2) as usize].into(), handle: Some(vec![i % 2]), counter: Some(u32::from(i)), hmac: None })).collect()
@@ -86,7 +88,7 @@ pub const SHIPPED: [&str; 10] = ["MemoryStore", "Option", "Arc<Mutex<MemoryStore
 pub fn cases(tier: Tier) -> Vec<Case> {
     let mut v = vec![];
     for content in 0..16u8 {
-        for rp in 0..3u8 {
+        for rp in 0..5u8 {
             for list in lists(tier) {
                 for newest_first in [true, false] {
                     for op in ["assert", "register"] {
@@ -423,7 +425,7 @@ pub fn run(ctx: &Ctx) -> Result<Run, String> {
     let n = cs.len() as u64 + csched;
     let mut run = Run::from_stats(
         "model_checking",
-        "universe of 4 credentials (2 RPs x 2, equal user handles across RPs): all 16 store contents x RP in {a, b, RP without credentials} x lists {absent, empty, sub-lists of the 4 ids + 1 unknown id (size <= 2 in both orders quick, all 31 thorough)} x transports hints on the descriptors {none, disjoint from the authenticator's, overlapping, mixed, empty} x listing order {newest, oldest first} for get_assertion (allow list) and make_credential (exclude list) on the real Authenticator over the contract store; and the same contents/lists/RPs against find_credentials of MemoryStore, Option<Passkey> and their four lock wrappers (wrappers compared with the store they wrap); plus every interleaving of a registration whose exclude list names a held credential with a concurrent assertion over Arc<Mutex<_>> and Arc<RwLock<_>> (must be refused in every schedule). Non-trivial = distinct case with a non-empty store",
+        "universe of 4 credentials (2 RPs x 2, equal user handles across RPs): all 16 store contents x RP in {a, b, RP without credentials, a in another letter case, a with a trailing dot} x lists {absent, empty, sub-lists of the 4 ids + 1 unknown id (size <= 2 in both orders quick, all 31 thorough)} x transports hints on the descriptors {none, disjoint from the authenticator's, overlapping, mixed, empty} x listing order {newest, oldest first} for get_assertion (allow list) and make_credential (exclude list) on the real Authenticator over the contract store; and the same contents/lists/RPs against find_credentials of MemoryStore, Option<Passkey> and their four lock wrappers (wrappers compared with the store they wrap); plus every interleaving of a registration whose exclude list names a held credential with a concurrent assertion over Arc<Mutex<_>> and Arc<RwLock<_>> (must be refused in every schedule). Non-trivial = distinct case with a non-empty store",
         true,
         stats,
     );
